@@ -262,6 +262,12 @@ impl LocalFunction {
             }
         }
 
+        // Arguments are always emitted, whether the body mentions them or not,
+        // so they belong to the set of emitted locals (which is what names are
+        // attached to).
+        let mut used_set = used_set;
+        used_set.extend(self.args.iter().cloned());
+
         // Use our type map to emit a compact representation of all locals now
         (
             ty_to_locals
